@@ -32,8 +32,6 @@ CONSTANTS
   SwResetExitElemV,      \* slices.validate clears Exit before each element
   SwPtrFreshCtx,         \* the schema behind a pointer runs on a fresh context, not on the pointer's
   SwValStructArgPtr,     \* struct.validate hands tests/transforms the destination pointer
-  SwNestedSourceTag,     \* nested structs resolve keys with the source tag of their front end
-  SwEmptyRecordSourceTag,\* so does a struct whose record is absent or empty (nil, {}, missing)
   SwRunAllTests,         \* the test loop does not stop at the first failure (unless catching)
   SwSoftPT               \* "run": PostTransforms of a skipped/caught node run (as the code does);
                          \* "any": they may or may not run (the properties leave it open)
@@ -185,14 +183,13 @@ StructField(k) ==
   /\ At("struct", "fields")
   /\ k \in Top.todo
   /\ LET f == Top  n == f.node  kid == n.kids[k]
-         emptyRec == f.in.t # "map" \/ \A j \in DOMAIN f.in.items : f.in.items[j].val.t = "missing"
-         key == KeyOf(kid, IF ~SwEmptyRecordSourceTag /\ emptyRec THEN "map" ELSE f.fe, Mode)
-         cfe == IF SwNestedSourceTag THEN f.fe ELSE "map"
+         key == IF Mode = "parse" THEN KeyOfIn(kid, f.fe, Mode, f.in) ELSE KeyOf(kid, f.fe, Mode)
+         cfe == ChildFe(f.fe)
          resetCC == SwResetCanCatchField
          resetEx == IF Mode = "parse" THEN SwResetExitFieldP ELSE SwResetExitFieldV
          cx == [ctxs EXCEPT ![f.sub] = [canCatch |-> IF resetCC THEN FALSE ELSE @.canCatch,
                                         exit     |-> IF resetEx THEN FALSE ELSE @.exit]]
-         child == Frame(kid.node, Lookup(f.in, key), Append(f.ip, key), Append(f.dp, kid.key), f.sub, cfe)
+         child == Frame(kid.node, ChildIn(f.fe, kid.node, f.in, key), Append(f.ip, key), Append(f.dp, kid.key), f.sub, cfe)
      IN Commit([Push(WithTop([Cur EXCEPT !.ctxs = cx], [f EXCEPT !.todo = f.todo \ {k}]), child)
                   EXCEPT !.ev = Ev("field", kid.key, key, 0)])
 
